@@ -105,10 +105,35 @@ def translate():
     import gen_consts
     with Lock("coq"):
         sync_coq_copy()
-    txt, info = gen_consts.generate(REPO)
+    errors = []
+    txt, info = gen_consts.generate(REPO, errors)
     with Lock("coq"):
         changed = write_if_changed(os.path.join(THEORIES, "Gen", "Consts.v"), txt)
-    return {"changed": changed, "constants": info}
+    return {"changed": changed, "constants": info, "errors": errors}
+
+
+def translator_errors_for(tr, closure, extra_files):
+    """Translator failures (a declaration the model is generated from is no longer where the translator
+    looks) that concern this property: the constant is used by a file of the proof closure or by the
+    property's plug-in / harness / driver.  A failed probe concerns every property."""
+    out = []
+    if not tr.get("errors"):
+        return out
+    texts = []
+    for f in list(closure) + list(extra_files):
+        for base in (COQ, VERIF, ""):
+            q = os.path.join(base, f) if base else f
+            if os.path.isfile(q):
+                try:
+                    texts.append(open(q, errors="replace").read())
+                except OSError:
+                    pass
+                break
+    blob = "\n".join(texts)
+    for e in tr["errors"]:
+        if e["name"] == "*probe*" or re.search(r"\bc_%s\b|[\"']%s[\"']" % (re.escape(e["name"]), re.escape(e["name"])), blob):
+            out.append(e)
+    return out
 
 
 # ---------------------------------------------------------------- stage 2: prove
@@ -701,6 +726,11 @@ class Check:
             failures.append({"kind": "proof", "signature": "proof broken: %s" % what, "case": None,
                              "detail": {"first_failure": ff, "failed_files": pr["failed_files"], "forbidden": pr["forbidden"],
                                         "bad_axioms": pr.get("bad_axioms"), "make_tail": pr.get("make_tail", "")[-1500:]}})
+        plug = sys.modules.get(type(self).__module__)
+        extra = [getattr(plug, "__file__", None) or os.path.join(VERIF, "checks", prop.lower() + ".py")]
+        for e in translator_errors_for(tr, pr.get("closure", []), extra):
+            failures.append({"kind": "translator", "signature": "translator: the declaration %s is generated from is no longer found in %s" % ("c_" + e["name"], e["file"]),
+                             "case": None, "detail": e})
         # ---- classify: known findings vs violations
         findings = load_findings(prop)
         known_hit, violations = {}, []
@@ -719,7 +749,7 @@ class Check:
         for fid, (e, fs) in known_hit.items():
             print("KNOWN-FINDING: property=%s %s (%s; %d case(s) this run)" % (prop, e["text"], fid, len(fs)))
         # ---- report violations with replay (oracle failures first: they carry a failing input)
-        order = {"oracle": 0, "crash": 1, "correspondence": 2, "proof": 3, "build": 4}
+        order = {"oracle": 0, "crash": 1, "correspondence": 2, "translator": 3, "proof": 4, "build": 5}
         violations.sort(key=lambda f: (order.get(f["kind"], 9), 0 if f.get("original_case") else 1))
         grouped, seen_keys = [], {}
         for f in violations:
